@@ -6,6 +6,7 @@ import (
 	"io"
 	"net/http"
 	"os"
+	"sort"
 	"strings"
 	"sync"
 	"time"
@@ -67,6 +68,36 @@ func dedupDriver(a *Args) {
 		}
 		return []byte("GET /d/" + id + " HTTP/1.1\r\nHost: backend.example\r\n\r\n"), "", 200
 	}
+	// uploads of IDs marked "-uf" fail at transport level: the proxy hangs up on every attempt
+	var fmu sync.Mutex
+	failedPosts := map[string]int{}
+	fp.Post = func(w http.ResponseWriter, r *http.Request, id string) {
+		if !strings.HasSuffix(id, "-uf") {
+			u := fp.ReadUpload(r, id)
+			if fp.OnUpload != nil {
+				fp.OnUpload(u)
+			}
+			w.WriteHeader(200)
+			return
+		}
+		fmu.Lock()
+		failedPosts[id]++
+		n := failedPosts[id]
+		fmu.Unlock()
+		mu.Lock()
+		if n >= 3 {
+			posts[id]++ // the exchange is over for the driver's wait loop: nothing more will come
+		}
+		mu.Unlock()
+		hx.Emit("FakePostFail", "id", id, "attempt", n, "final", n == 3)
+		if hj, ok := w.(http.Hijacker); ok {
+			if c, _, err := hj.Hijack(); err == nil {
+				c.Close()
+				return
+			}
+		}
+		w.WriteHeader(500)
+	}
 	fp.OnUpload = func(u *fakes.Upload) {
 		ok := u.Err == nil && u.Resp != nil && u.Resp.StatusCode == 200 && string(u.Body) == "served "+u.ID
 		mu.Lock()
@@ -116,6 +147,35 @@ func dedupDriver(a *Args) {
 				time.Sleep(time.Duration(d) * time.Millisecond)
 			}
 		}
+		// IDs whose uploads fail for good are listed once more after the last hang-up: a request that was
+		// forwarded must not be forwarded again because its upload failed
+		var again []string
+		for id := range want {
+			if strings.HasSuffix(id, "-uf") {
+				again = append(again, id)
+			}
+		}
+		if len(again) > 0 {
+			sort.Strings(again)
+			deadline := time.Now().Add(8 * time.Second)
+			for time.Now().Before(deadline) {
+				fmu.Lock()
+				all := true
+				for _, id := range again {
+					if failedPosts[id] < 3 {
+						all = false
+					}
+				}
+				fmu.Unlock()
+				if all {
+					break
+				}
+				time.Sleep(3 * time.Millisecond)
+			}
+			time.Sleep(10 * time.Millisecond)
+			fp.Push(again)
+			time.Sleep(30 * time.Millisecond)
+		}
 		// wait until every listed ID was served once, then a settle time for stray duplicates. (An ID that
 		// is never served is a fact the trace shows; after three such histories the remaining ones wait
 		// only briefly, so that a broken agent does not turn the run into hours of waiting.)
@@ -160,12 +220,23 @@ func dedupDriver(a *Args) {
 		hist := make([][]string, len(h))
 		distinct := map[string]bool{}
 		shape := ""
+		failing := ""
+		if n%4 == 0 && len(h) > 0 && len(h[0]) > 0 {
+			failing = h[0][0] // in every fourth history the uploads of the first listed ID fail at transport level
+		}
 		for i, batch := range h {
 			for _, x := range batch {
-				hist[i] = append(hist[i], fmt.Sprintf("h%d-%s", n, x))
+				id := fmt.Sprintf("h%d-%s", n, x)
+				if x == failing {
+					id += "-uf"
+				}
+				hist[i] = append(hist[i], id)
 				distinct[x] = true
 			}
 			shape += strings.Join(batch, "") + "|"
+		}
+		if failing != "" {
+			shape += "upload-fails:" + failing
 		}
 		play(fmt.Sprintf("dedup-h%d", n), "dedup-history", hist, len(distinct))
 		res.Case("hist:"+shape, map[string]interface{}{"history": h})
